@@ -75,6 +75,21 @@ def judge(case) -> Verdict:
         v.fail(f"refusal:{bad}:approximated-instead-of-refused", {"input": [str(o) for o in lst], "output": [o.line for o in out]})
         return v
 
+    if case.get("readdress"):
+        # history: collapse once, re-address some inputs through their setters, collapse again - the second
+        # result must describe the CURRENT addresses
+        fn(list(objs))
+        for idx, (b2, w2), via in case["readdress"]:
+            if not R.is_contiguous(w2) or b2 & w2 or w2 == R.ALL1:
+                raise Invalid()
+            i = idx % len(objs)
+            text = f"{R.int2ip(b2)}/{32 - bin(w2).count('1')}"
+            if via == "prefix":
+                objs[i].prefix = text
+            else:
+                objs[i].line = _render((b2, w2), cls_name, platform, styles[i % len(styles)])
+            pairs[i] = (b2, w2)
+        v.label("re-addressed-after-first-collapse")
     before = [(o.line, o.note) for o in objs]
     out = fn(list(objs))
     text_in = [o.line for o in objs]
@@ -148,7 +163,15 @@ def case_st(draw, tier):
         nets.append([b & R.ALL1, w])
     case = {"cls": cls, "platform": platform, "nets": nets,
             "styles": draw(st.lists(st.integers(0, 9), min_size=1, max_size=4))}
-    if draw(st.integers(0, 14)) == 0:
+    if draw(st.sampled_from([True, False, False])):
+        moves = []
+        for _ in range(draw(st.integers(1, 3))):
+            plen = draw(st.integers(20, 32))
+            w2 = (1 << (32 - plen)) - 1
+            moves.append([draw(st.integers(0, 11)), [(pool | draw(st.integers(0, 1023))) & ~w2 & R.ALL1, w2],
+                          draw(st.sampled_from(["prefix", "line"]))])
+        case["readdress"] = moves
+    elif draw(st.integers(0, 14)) == 0:
         case["bad"] = draw(st.sampled_from(["nc", "foreign", "str"]))
         case["pos"] = draw(st.integers(0, 12))
         if case["bad"] == "nc" and cls == "AddressAg" and platform == "ios":
